@@ -676,10 +676,10 @@ func TestVerifC16(t *testing.T) {
 		base, order string
 		depth       int
 	}
-	combos := vlib.Pick(r,
-		[]combo{{"plain", "fwd", 2}},
-		[]combo{{"plain", "fwd", 3}, {"plain", "rev", 2}, {"suffrage", "fwd", 2}, {"suffrage", "rev", 2}},
-	)
+	combos := []combo{{"plain", "fwd", 2}}
+	if _, replaying := r.Replaying(); r.Thorough() || replaying { // a replay runs in the quick tier: enumerate the thorough superset, r.Want filters
+		combos = []combo{{"plain", "fwd", 3}, {"plain", "rev", 2}, {"suffrage", "fwd", 2}, {"suffrage", "rev", 2}}
+	}
 	r.Set("tamper_alphabet", len(alphabet))
 	r.Set("combos_base_order_maxtampers", fmt.Sprint(combos))
 
